@@ -26,6 +26,18 @@ def subharnesses(tier):
     for op in ('create_known', 'create_new', 'delete', 'synchronize',
                'create_twice'):
         subs.append(('netsvc-%s' % op, {'mgr': 'netsvc', 'op': op}))
+    # the treadmill root is reached through a symbolic link whose target lies
+    # deeper than the link (/treadmill -> /vol/data/local/treadmill): what a
+    # live owner created must survive garbage collection there too
+    for mgr in ('vip', 'rule', 'spec'):
+        for op in ('gc', 'create_then_gc'):
+            spec = {'mgr': mgr, 'op': op, 'layout': 'symlinked'}
+            if mgr == 'vip':
+                spec['cidr'] = '10.0.0.0/30'
+            subs.append(('%s-symlinked_root-%s' % (mgr, op), spec))
+        subs.append(('%s-create_then_gc' % mgr,
+                     dict({'mgr': mgr, 'op': 'create_then_gc'},
+                          **({'cidr': '10.0.0.0/30'} if mgr == 'vip' else {}))))
     return subs
 
 
@@ -33,8 +45,13 @@ def budget(tier, name):
     return 300.0 if tier == 'quick' else 1200.0
 
 
-def _setup(S):
+def _setup(S, spec=None):
     d = fsx.fresh()
+    if spec and spec.get('layout') == 'symlinked':
+        real = os.path.join(d, 'vol', 'data', 'local', 'treadmill')
+        os.makedirs(real)
+        os.symlink(real, os.path.join(d, 'tm'))
+        d = os.path.join(d, 'tm')          # every path goes through the link
     owners = os.path.join(d, 'owners')
     os.makedirs(owners)
     for o in OWNERS:
@@ -67,7 +84,7 @@ def _expect(S, label, directory, table):
 def _vip(S, spec):
     import ipaddress
     from treadmill import vipfile
-    d, owners = _setup(S)
+    d, owners = _setup(S, spec)
     vips = os.path.join(d, 'vips')
     mgr = vipfile.VipMgr(spec['cidr'], vips, owners)
     net = ipaddress.IPv4Network(spec['cidr'])
@@ -136,6 +153,19 @@ def _vip(S, spec):
             S.reach('free_by_non_owner')
         _expect(S, 'C14:free_changed_something_the_caller_does_not_own',
                 vips, table)
+    elif op == 'create_then_gc':
+        try:
+            ip = mgr.alloc(owner)
+        except Exception:       # noqa
+            ip = None
+        if ip is not None:
+            S.reach('created_before_gc')
+            table[ip] = owner
+        mgr.garbage_collect()
+        for n, o in list(table.items()):
+            if o == DEAD:
+                table[n] = None
+        _expect(S, 'C14:gc_did_not_reclaim_exactly_the_orphans', vips, table)
     elif op == 'gc':
         mgr.garbage_collect()
         for n, o in list(table.items()):
@@ -166,7 +196,7 @@ def _rules():
 
 def _rule(S, spec):
     from treadmill import rulefile
-    d, owners = _setup(S)
+    d, owners = _setup(S, spec)
     rdir = os.path.join(d, 'rules')
     os.makedirs(rdir)
     mgr = rulefile.RuleMgr(rdir, owners)
@@ -202,6 +232,28 @@ def _rule(S, spec):
         elif table[names[k]] is not None:
             S.reach('unlink_by_non_owner')
         _expect(S, 'C14:unlink_rule_changed_something_not_owned', rdir, table)
+    elif op == 'create_then_gc':
+        try:
+            mgr.create_rule(chain, rule, owner)
+            table[names[k]] = owner
+            S.reach('created_before_gc')
+        except OSError:
+            pass
+        mgr.garbage_collect()
+        for n, o in list(table.items()):
+            if o == DEAD:
+                table[n] = None
+        _expect(S, 'C14:rule_gc_did_not_reclaim_exactly_the_orphans', rdir,
+                table)
+        # ... and the rule of a live owner is still refused to anybody else
+        other = [o for o in OWNERS if o != table[names[k]]][0]
+        if table[names[k]] in OWNERS:
+            try:
+                mgr.create_rule(chain, rule, other)
+                S.fail('C14:create_rule_succeeded_on_rule_of_other_owner',
+                       {'owner_before': table[names[k]], 'after': 'gc'})
+            except OSError:
+                pass
     elif op == 'gc':
         mgr.garbage_collect()
         for n, o in list(table.items()):
@@ -226,7 +278,7 @@ SPECS = [
 
 def _spec(S, spec):
     from treadmill import endpoints
-    d, owners = _setup(S)
+    d, owners = _setup(S, spec)
     edir = os.path.join(d, 'endpoints')
     os.makedirs(edir)
     mgr = endpoints.EndpointsMgr(edir)
@@ -271,6 +323,20 @@ def _spec(S, spec):
                 S.reach('unlinked_by_owner')
                 table[n] = None
         _expect(S, 'C14:unlink_all_removed_wrong_specs', edir, table)
+    elif op == 'create_then_gc':
+        try:
+            mgr.create_spec(*sp, owner=owner)
+            if table[names[k]] is None:
+                table[names[k]] = OWNERS[who]
+            S.reach('created_before_gc')
+        except OSError:
+            pass
+        endpoints.garbage_collect(edir)
+        for n, o in list(table.items()):
+            if o == DEAD:
+                table[n] = None
+        _expect(S, 'C14:spec_gc_did_not_reclaim_exactly_the_orphans', edir,
+                table)
     elif op == 'gc':
         endpoints.garbage_collect(edir)
         for n, o in list(table.items()):
@@ -420,5 +486,6 @@ META = {
     'reach_required': ['stepped', 'alloc_ok', 'alloc_refused',
                        'freed_by_owner', 'free_by_non_owner', 'reclaimed',
                        'created', 'create_refused', 'unlinked_by_owner',
-                       'unlink_by_non_owner', 'request_served'],
+                       'unlink_by_non_owner', 'request_served',
+                       'created_before_gc'],
 }
